@@ -162,6 +162,10 @@ def _frames_post(e):
         # C14: with the option off not a single declaration goes through Stream.namespace_declaration
         "no-declaration-unless-enabled": Implies(Not(S.options.params.namespace_declarations), S.g_ns == O.g_ns),
     }
+    if S.flow.cls.name in ("GraphsFrameFlow", "DatasetsFrameFlow"):
+        # C07: grouped serialisation writes one frame per graph / dataset handed in (the loop over the statements is
+        # proved to yield nothing for these flows - `silent` - so the yields recorded on the path are all there is)
+        out["at-most-one-frame-per-graph-or-dataset"] = len(e.yields) <= 1
     return out
 
 
@@ -179,6 +183,11 @@ def _after_stmt(e):
     if S.flow.cls.name in BOUNDED:
         return {"pending-rows-below-frame-size": flow_len(S.flow) < S.flow.frame_size}
     return {}
+
+
+def _silent_loop(e):
+    """C07: a flow that is not size-bounded never hands out a frame in the middle of a graph / dataset"""
+    return e.stream.flow.cls.name not in BOUNDED
 
 
 def _variants(stream_cls: str, stmt: Sort, sink_shape: str) -> list:
@@ -200,7 +209,7 @@ class _triples_frames:
     shards = 6
     modifies = STMT_MOD
     # loop 0: `for graph in graphs` (a one-element tuple, unrolled); loop 1: the statements
-    loops = {1: LoopSpec(invariant=_stmt_loop, after_each=_after_stmt, modifies=STMT_MOD[:5])}
+    loops = {1: LoopSpec(invariant=_stmt_loop, after_each=_after_stmt, modifies=STMT_MOD[:5], silent=_silent_loop)}
 
     def requires(e): return _frames_pre(e)
     def raises(e): return MAY_REJECT
@@ -215,7 +224,7 @@ class _quads_frames:
     yields = MSG("RdfStreamFrame")
     shards = 6
     modifies = STMT_MOD
-    loops = {0: LoopSpec(invariant=_stmt_loop, after_each=_after_stmt, modifies=STMT_MOD[:5])}
+    loops = {0: LoopSpec(invariant=_stmt_loop, after_each=_after_stmt, modifies=STMT_MOD[:5], silent=_silent_loop)}
 
     def requires(e): return _frames_pre(e)
     def raises(e): return MAY_REJECT
@@ -251,7 +260,11 @@ class _graph:
     loops = {0: LoopSpec(invariant=lambda e: {"tables-well-formed": wf_te(e.self.encoder)},
                          after_each=lambda e: ({"pending-rows-below-frame-size": flow_len(e.self.flow) < e.self.flow.frame_size}
                                                if e.self.flow.cls.name in BOUNDED else {}),
+                         silent=lambda e: e.self.flow.cls.name not in BOUNDED,
                          modifies=GRAPH_MOD)}
+
+    # C07: with a flow that is not size-bounded a graph never produces a frame by itself
+    def silent(e): return e.self.flow.cls.name not in BOUNDED
 
     def requires(e): return And(wf_te(e.self.encoder), bounded_ok(e.self))
     def raises(e): return MAY_REJECT
@@ -310,7 +323,7 @@ class _graphs_frames:
     yields = MSG("RdfStreamFrame")
     shards = 6
     modifies = STMT_MOD
-    loops = {0: LoopSpec(invariant=_stmt_loop, after_each=_after_stmt, modifies=STMT_MOD[:5])}
+    loops = {0: LoopSpec(invariant=_stmt_loop, after_each=_after_stmt, modifies=STMT_MOD[:5], silent=_silent_loop)}
 
     def requires(e): return _frames_pre(e)
     def raises(e): return MAY_REJECT
